@@ -253,7 +253,7 @@ class LoopMixin:
     # ------------------------------------------------------------------
     def st_For(self, st, frame: Frame):
         it = self.force(self.eval(st.iter, frame), frame, st)
-        items = self.as_items(it, frame, st) if not isinstance(it, ObjV) else None
+        items = self.as_items(it, frame, st) if not (isinstance(it, ObjV) and not getattr(it.cls, "is_namedtuple", False)) else None
         body = loop_body(st)
         if items is not None and len(items) <= 16:
             broke = False
